@@ -38,7 +38,7 @@ func pickFrom[T any](g *G, label string, xs []T) T { return xs[g.n(label, len(xs
 // ---- leaves ----
 
 var plainNames = []string{"a", "b", "c", "k", "x1", "_u", "Col9", "tbl", "count_", "kind", "on", "with", "where", "project", "top", "as", "join", "T", "NULL", "True", "OR", "By", "In", "AND"}
-var quotedNames = []string{"a b", "select", "and", "by", "x`y", "", "é", "a.b", "1st", "count()", "from", "null", "true", "false", "a.b.c", ".x", "x.", "let"}
+var quotedNames = []string{"a b", "select", "and", "by", "x`y", "", "é", "a.b", "1st", "count()", "from", "null", "true", "false", "a.b.c", ".x", "x.", "let", "$left", "$right"}
 var hostileNames = []string{`q"d`, `s'q`, `b\s`, `--c`, `/*c*/`, `a;b`, `tab	x`, "nul\x00x", "bad\xffutf", `x\`, `"`, `'`, "``", `$left`, `{p}`}
 var tableNames = []string{"T", "U", "Events", "tbl", "_t1"}
 
